@@ -233,8 +233,9 @@ type kept struct {
 }
 
 type state struct {
-	bufs map[int][]byte
-	keep []kept
+	arena map[int][]byte
+	bufs  map[int][]byte
+	keep  []kept
 }
 
 // exec runs one op. It never lets a panic escape.
@@ -256,7 +257,16 @@ func (st *state) exec(op *plan.Op, shared *scripted) (res plan.Res) {
 		} else {
 			ent = op.Entropy()
 		}
-		if op.Cap > 0 && ent != nil && op.Buf == 0 {
+		if op.Arena && ent != nil && op.Buf == 0 {
+			// the caller recycles one buffer per length: new content, same backing array
+			a, ok := st.arena[len(ent)]
+			if !ok {
+				a = make([]byte, len(ent))
+				st.arena[len(ent)] = a
+			}
+			copy(a, ent)
+			ent = a
+		} else if op.Cap > 0 && ent != nil && op.Buf == 0 {
 			// caller-owned backing array with spare capacity behind the slice
 			full = make([]byte, len(ent)+op.Cap)
 			copy(full, ent)
@@ -455,7 +465,7 @@ func runExec(sync bool) {
 	in := bufio.NewReaderSize(os.Stdin, 1<<20)
 	out := bufio.NewWriterSize(os.Stdout, 1<<20)
 	defer out.Flush()
-	st := &state{bufs: map[int][]byte{}}
+	st := &state{bufs: map[int][]byte{}, arena: map[int][]byte{}}
 	enc := json.NewEncoder(out)
 	for {
 		if in.Buffered() == 0 {
@@ -504,7 +514,7 @@ func runConc(path string) {
 	}
 	var pre []plan.Res
 	if len(c.Pre) > 0 {
-		st := &state{bufs: map[int][]byte{}}
+		st := &state{bufs: map[int][]byte{}, arena: map[int][]byte{}}
 		for i := range c.Pre {
 			r := st.exec(&c.Pre[i], nil)
 			r.G = -1
@@ -530,7 +540,7 @@ func runConc(path string) {
 		wg.Add(1)
 		go func(w int) {
 			defer wg.Done()
-			st := &state{bufs: map[int][]byte{}}
+			st := &state{bufs: map[int][]byte{}, arena: map[int][]byte{}}
 			ops := c.Workers[w]
 			local := make([]plan.Res, 0, len(ops))
 			gids[w] = goid()
